@@ -31,3 +31,7 @@ run tcpclient_lock_renamed      C11 's/__receive_lock/__recv_lock/g'            
 run server_client_lock_renamed  C17 's/__send_lock\b/__sending_lock/g'           servers/async_tcp.py
 run server_client_lock_renamed14 C14 's/__send_lock\b/__sending_lock/g'          servers/async_tcp.py
 run stream_server_is_closing    C15 's/client_is_closing/client_closing_test/g'  servers/misc.py
+run protocol_fastpath_sleep0    C13 's/await TaskUtils.coro_yield()/await asyncio.sleep(0)/' lowlevel/api_async/backend/_asyncio/stream/socket.py
+run protocol_fastpath_sleep0_10 C10 's/await TaskUtils.coro_yield()/await asyncio.sleep(0)/' lowlevel/api_async/backend/_asyncio/stream/socket.py
+run base64_digest_split         C05 's/data\[:-32\], data\[-32:\]/data[: max(len(data) - 32, 0)], data[-32:]/' serializers/wrapper/base64.py
+run server_client_closing_renamed C14 's/__closing\b/__close_requested/g'        servers/async_tcp.py
